@@ -281,7 +281,9 @@ func TestC15Foreign(t *testing.T) {
 			}
 			return rapid.IntRange(1, 5000).Draw(t, label)
 		}
-		c := func() any { return map[string]any{"a": a.Case().Cfg, "b": b.Case().Cfg, "opsA": len(a.log), "opsB": len(b.log)} }
+		c := func() any {
+			return map[string]any{"a": a.Case().Cfg, "b": b.Case().Cfg, "opsA": len(a.log), "opsB": len(b.log)}
+		}
 		beginCase("C15", "foreign", c)
 		defer endCase()
 		a.step(POp{Op: "reset", Data: take(minInt(size("aReset"), a.cc.BufferSize)), Cap: rapid.SampledFrom([]int{7, 8, 64, 40_000}).Draw(t, "aCap")})
